@@ -27,7 +27,84 @@ type Env struct {
 }
 
 func NewEnv(p *load.Program, r *report.Report) *Env {
-	return &Env{P: p, C: ir.NewCtx(), R: r, facts: map[*ssa.Function]*ir.FuncFacts{}}
+	e := &Env{P: p, C: ir.NewCtx(), R: r, facts: map[*ssa.Function]*ir.FuncFacts{}}
+	ir.SetUniqueSites(e.uniqueSites())
+	return e
+}
+
+// uniqueSites: repository functions with exactly one static call site, never
+// used as a value, without dynamic callers in the call graph (the virtual
+// inlining view, ir/inline.go).
+func (e *Env) uniqueSites() map[*ssa.Function]ssa.CallInstruction {
+	sites := map[*ssa.Function][]ssa.CallInstruction{}
+	taken := map[*ssa.Function]bool{}
+	for f := range e.P.Funcs {
+		for _, b := range f.Blocks {
+			for _, in := range b.Instrs {
+				var callee *ssa.Function
+				if ci, ok := in.(ssa.CallInstruction); ok {
+					callee = ci.Common().StaticCallee()
+					if callee != nil && e.P.Funcs[callee] {
+						sites[callee] = append(sites[callee], ci)
+					}
+				}
+				for _, op := range in.Operands(nil) {
+					if op == nil || *op == nil {
+						continue
+					}
+					g, isF := (*op).(*ssa.Function)
+					if !isF {
+						if mc, isMC := (*op).(*ssa.MakeClosure); isMC {
+							g, isF = mc.Fn.(*ssa.Function)
+							_ = g
+							isF = false // a closure value: its creation is not a use of a named function
+						}
+					}
+					if isF && g != callee {
+						taken[g] = true
+					}
+				}
+				// a closure that is created but not called right where it is created is a value
+				if mc, ok := in.(*ssa.MakeClosure); ok {
+					if g, ok := mc.Fn.(*ssa.Function); ok {
+						called := false
+						if refs := mc.Referrers(); refs != nil {
+							for _, ref := range *refs {
+								if ci, ok := ref.(ssa.CallInstruction); ok && ci.Common().Value == ssa.Value(mc) {
+									called = true
+								} else {
+									taken[g] = true
+								}
+							}
+						}
+						if !called {
+							taken[g] = true
+						}
+					}
+				}
+			}
+		}
+	}
+	out := map[*ssa.Function]ssa.CallInstruction{}
+	for f, ss := range sites {
+		if len(ss) != 1 || taken[f] {
+			continue
+		}
+		// dynamic callers (interface dispatch, function tables) in the call graph
+		if n := e.P.CG.Nodes[f]; n != nil {
+			dyn := false
+			for _, ed := range n.In {
+				if ed.Site != nil && ed.Site != ss[0] && e.P.Funcs[ed.Caller.Func] {
+					dyn = true
+				}
+			}
+			if dyn {
+				continue
+			}
+		}
+		out[f] = ss[0]
+	}
+	return out
 }
 
 // Prop is one property's rule set.
@@ -101,9 +178,24 @@ func (e *Env) InstrPos(in ssa.Instruction) string {
 	return "-"
 }
 
-// DCS of an instruction, normalised.
+// DCS of an instruction, normalised: the dominating conditions inside its
+// function, extended with those of the call site when the function has a
+// single (plain) call site - the virtual inlining view.
 func (e *Env) DCS(in ssa.Instruction) []ir.NLit {
-	return e.DCSBlock(in.Block())
+	lits := e.DCSBlock(in.Block())
+	f := in.Parent()
+	for d := 0; d < 4 && f != nil; d++ {
+		site := ir.UniqueSite(f)
+		if site == nil {
+			break
+		}
+		if _, isCall := site.(*ssa.Call); !isCall {
+			break // go / defer: the callee does not run under the caller's conditions at that moment
+		}
+		lits = append(lits, e.DCSBlock(site.Block())...)
+		f = site.Parent()
+	}
+	return lits
 }
 
 // DCSBlock is the expanded, normalised dominating-condition set of a block.
@@ -159,7 +251,7 @@ func (e *Env) IsFieldRead(v ssa.Value, root ssa.Value, suffix string) bool {
 // SameValue compares two SSA values, looking through loads of the same
 // single-assignment cell.
 func SameValue(a, b ssa.Value) bool {
-	a, b = ir.Resolve(a), ir.Resolve(b)
+	a, b = ir.Deep(a), ir.Deep(b)
 	if a == b {
 		return true
 	}
